@@ -423,6 +423,49 @@ def ob_ops(Ne, nPg, dim, seed):
         same(TensorProd(fa, fb, symmetric=True), loop(lambda x, y: 0.5 * (np.einsum("ik,jl->ijkl", x, y) + np.einsum("il,jk->ijkl", x, y)), ("fe", a), ("fe", b)),
              "TensorProd symmetric")
         same(Norm(fa, axis=(-2, -1)), np.linalg.norm(a, axis=(-2, -1)), "Norm")
+    # size-1 leading axes: a per-element field (Ne,1,...) against a per-point field (1,nPg,...) runs at (Ne,nPg)
+    leads = [(Ne, 1), (1, nPg), (Ne, nPg), (1, 1)]
+    for la in leads:
+        for lb in leads:
+            full = np.broadcast_shapes(la, lb)
+            for r1, r2 in [(0, 0), (1, 1), (2, 2), (2, 1), (0, 2), (1, 2)]:
+                a = _rand(rng, la + _tensor_shapes(dim, r1))
+                b = _rand(rng, lb + _tensor_shapes(dim, r2))
+                A = np.broadcast_to(a, full + a.shape[2:])
+                B = np.broadcast_to(b, full + b.shape[2:])
+                fa, fb = FeArray.asfearray(a), FeArray.asfearray(b)
+
+                def floop(f):
+                    return np.array([[f(A[e, p], B[e, p]) for p in range(full[1])] for e in range(full[0])])
+
+                def chk(got, want, what):
+                    nonlocal n
+                    n += 1
+                    same(got, want, f"{what} with leading axes {la} x {lb}", ranks=[r1, r2], leading=[list(la), list(lb)])
+                    if not isinstance(got, FeArray):
+                        fail(f"{what}: result of leading axes {la} x {lb} is {type(got).__name__}, not a FeArray", ranks=[r1, r2], leading=[list(la), list(lb)])
+                    # the result keeps acting as a field of its tensor rank: against a scalar field of the full leading shape
+                    w = _rand(rng, full)
+                    n += 1
+                    gw = np.asarray(want)
+                    same(FeArray.asfearray(w) * got, w.reshape(full + (1,) * (gw.ndim - 2)) * gw, f"{what} then scalar field * result, leading axes {la} x {lb}",
+                         ranks=[r1, r2], leading=[list(la), list(lb)])
+
+                for opn, f in (("+", lambda x, y: x + y), ("-", lambda x, y: x - y), ("*", lambda x, y: x * y), ("/", lambda x, y: x / y)):
+                    chk(f(fa, fb), floop(f), f"operator {opn}")
+                chk(np.maximum(fa, fb), floop(np.maximum), "ufunc maximum")
+                if r1 >= 1 and r2 >= 1:
+                    chk(fa.dot(fb), floop(lambda x, y: np.tensordot(x, y, axes=1)), "dot")
+                    chk(fa @ fb, floop(lambda x, y: x @ y), "matmul")
+                if r1 == 2 and r2 == 2:
+                    chk(fa.ddot(fb), floop(lambda x, y: np.tensordot(x, y, axes=2)), "ddot")
+                    chk(np.einsum("...ij,...jk->...ik", fa, fb), floop(lambda x, y: x @ y), "np.einsum")
+                    chk(np.where(fa > fb, fa, fb), floop(lambda x, y: np.where(x > y, x, y)), "np.where")
+                    chk(np.matmul(fa, fb), floop(lambda x, y: x @ y), "np.matmul")
+                    m = fa + 10 * np.eye(dim)
+                    chk(np.linalg.solve(m, fb), floop(lambda x, y: np.linalg.solve(x + 10 * np.eye(dim), y)), "np.linalg.solve")
+                if r1 == r2 and r1 >= 1 and la == lb:
+                    chk(np.concatenate((fa, fb), axis=-1), floop(lambda x, y: np.concatenate((x, y), axis=-1)), "np.concatenate")
     # a plain array is always a constant tensor, even when its shape equals (Ne, nPg)
     s = _rand(rng, (Ne, nPg))
     fs = FeArray.asfearray(_rand(rng, (Ne, nPg, Ne, nPg)))
